@@ -530,6 +530,8 @@ func factsC09() {
 		boolFact(g, "goWebShape", iDial >= 0 && iW > iDial && iC1 > iW && iC2 > iW && count(gevs, "go", `.`) == 2,
 			"dial RedirDialer; webConn.Write(…); go Copy(webConn, conn); go Copy(conn, webConn)")
 		natFact(g, "goWebPeerWrites", len(allCalls(goWeb.Body, `^conn\.Write$`)), "conn.Write calls in goWeb (server-originated bytes)")
+		natFact(g, "goWebDeadlinesSet", len(allCalls(goWeb.Body, `\.Set(Read|Write)?Deadline$`)),
+			"Set[Read|Write]Deadline calls in goWeb: a deadline left on either connection of the relay ends it for a peer (or target) that speaks later (seed C09-6)")
 		// the two fault points of goWeb: what happens to the peer connection (and to the half-open target connection)
 		// when the redirect target cannot be dialled / refuses the first write
 		gl := goWeb.Body.List
